@@ -34,6 +34,12 @@ type c37Case struct {
 	Stall     string `json:"stall"`     // never | after-preface | slow-reader
 	Transport string `json:"transport"` // pipe | tcp
 	N         int    `json:"n"`
+	// GoAway: "" | "graceful" | "conn-error". The client first queues limit-100 control frames, then
+	// the connection is put into the GOAWAY state (graceful shutdown signalled through the base
+	// server's CloseNotifyCh, or RST_STREAM for an idle stream = connection error PROTOCOL_ERROR),
+	// and only then the flood passes the limit. GracefulShutdownTimeout is 30 s so that the
+	// shutdown timer is not what ends a graceful case.
+	GoAway string `json:"goaway,omitempty"`
 }
 
 type c37Handler struct{ release chan struct{} }
@@ -54,15 +60,20 @@ func c37RunCase(r *vkit.Run, cs *c37Case) (highCounter, highQueue int, closed bo
 	h := &c37Handler{release: make(chan struct{})}
 	defer close(h.release)
 	var tc *testConn
+	hs := baseServer()
+	hs.GracefulShutdownTimeout = 30 * time.Second
+	shutdownCh := make(chan bool)
+	hs.CloseNotifyCh = shutdownCh
 	if cs.Transport == "tcp" {
 		var err error
-		tc, err = dialTCPSmall(srv, h)
+		tc, err = dialTCPSmall(srv, hs, h)
 		if err != nil {
 			r.Inconclusive("C37: tcp setup: " + err.Error())
 			return
 		}
 	} else {
-		tc = dialPipe(srv, h)
+		sEnd, cEnd := net.Pipe()
+		tc = serveOnWith(srv, hs, h, sEnd, cEnd)
 	}
 	tc.cli.NoRead = true
 	nc := tc.cli.NetConn()
@@ -132,7 +143,41 @@ func c37RunCase(r *vkit.Run, cs *c37Case) (highCounter, highQueue int, closed bo
 	nextID := uint32(3)
 	var ping [8]byte
 	var werr error
+	goAwayAt := -1
+	if cs.GoAway != "" {
+		goAwayAt = limit - 100
+	}
 	for i := 0; i < cs.N; i++ {
+		// a write that nobody reads any more (server stopped reading) must not hang the check
+		nc.SetWriteDeadline(time.Now().Add(20 * time.Second))
+		if i == goAwayAt {
+			switch cs.GoAway {
+			case "graceful":
+				close(shutdownCh)
+			case "conn-error":
+				// RST_STREAM for an idle stream: connection error raised while processing the frame, so
+				// the server keeps reading frames during its 250 ms shutdown window
+				werr = tc.cli.WriteRST(4001, http2.ErrCodeCancel)
+			}
+			// wait until the serve loop is in the GOAWAY state
+			inGoAway := false
+			for k := 0; k < 20000 && werr == nil; k++ {
+				s, alive := tc.vc.OnServe()
+				if !alive {
+					break
+				}
+				if s.InGoAway {
+					inGoAway = true
+					break
+				}
+				time.Sleep(100 * time.Microsecond)
+			}
+			if !inGoAway {
+				r.Count("goaway_state_not_reached", 1)
+				break
+			}
+			r.Count("goaway_state_reached_before_limit", 1)
+		}
 		pat := cs.Pattern
 		if pat == "mixed" {
 			pat = []string{"ping", "settings", "rst-malformed-headers", "data-idle-stream", "window-update-zero", "padded-data-open-stream"}[i%6]
@@ -216,8 +261,13 @@ waitLoop:
 		r.Count("counter_vs_queue_max_difference", d)
 	}
 	shape := cs.Pattern + "," + cs.Stall + "," + cs.Transport
+	sigPat := cs.Pattern
+	if cs.GoAway != "" {
+		shape += ",goaway=" + cs.GoAway
+		sigPat += "-in-goaway-" + cs.GoAway
+	}
 	if highCounter > limit+c37Slack || highQueue > limit+c37Slack {
-		r.Violation("flood:"+cs.Pattern+"-queue-unbounded",
+		r.Violation("flood:"+sigPat+"-queue-unbounded",
 			fmt.Sprintf("%s: control-frame queue reached %d (counter %d) with limit %d after %d client frames", shape, highQueue, highCounter, limit, written), cs)
 	}
 	if highCounter > limit && !closed && !sawCrossing {
@@ -226,7 +276,7 @@ waitLoop:
 		closed = true
 	}
 	if highCounter > limit && !closed {
-		r.Violation("flood:"+cs.Pattern+"-not-closed-past-limit",
+		r.Violation("flood:"+sigPat+"-not-closed-past-limit",
 			fmt.Sprintf("%s: counter reached %d > limit %d but the connection was still being served 15s later", shape, highCounter, limit), cs)
 	}
 	if p := tc.vc.Panicked(); p != "" {
@@ -237,7 +287,7 @@ waitLoop:
 
 // dialTCPSmall is dialTCP with small socket buffers on both ends so that a
 // non-reading client blocks the server's writer early.
-func dialTCPSmall(srv *bfe_http2.Server, h bfe_http.Handler) (*testConn, error) {
+func dialTCPSmall(srv *bfe_http2.Server, hs *bfe_http.Server, h bfe_http.Handler) (*testConn, error) {
 	ln, err := net.Listen("tcp", "127.0.0.1:0")
 	if err != nil {
 		return nil, err
@@ -268,12 +318,12 @@ func dialTCPSmall(srv *bfe_http2.Server, h bfe_http.Handler) (*testConn, error) 
 	if t, ok := cEnd.(*net.TCPConn); ok {
 		t.SetReadBuffer(4096)
 	}
-	return serveOn(srv, h, a.c, cEnd), nil
+	return serveOnWith(srv, hs, h, a.c, cEnd), nil
 }
 
 func c37(r *vkit.Run) {
 	limit := bfe_http2.VerifMaxQueuedControlFrames(&bfe_http2.Server{})
-	r.SetRule(fmt.Sprintf("flood patterns {PING, SETTINGS, HEADERS with a missing pseudo-header (=> RST_STREAM), DATA on idle streams (=> WINDOW_UPDATE + RST_STREAM), WINDOW_UPDATE 0 on a stream (=> RST_STREAM), zero-data padded DATA on an open stream (=> 2 WINDOW_UPDATE each), round-robin mix} x reader stall {never reads, stops after the SETTINGS exchange, reads 1 frame per 100 written} x transport {net.Pipe (no buffering), loopback TCP with 4 KB socket buffers}; N = 3 x limit (limit=%d) client frames per case (thorough: also 10 x limit). The serve goroutine's queuedControlFrames and the real control queue length are sampled through the serve loop and read once more after the loop ended. Cases run one at a time so that the heap delta is attributable (recorded, not judged). Non-trivial = the counter reached the limit in that case; distinct = (pattern, stall, transport, N)", limit))
+	r.SetRule(fmt.Sprintf("flood patterns {PING, SETTINGS, HEADERS with a missing pseudo-header (=> RST_STREAM), DATA on idle streams (=> WINDOW_UPDATE + RST_STREAM), WINDOW_UPDATE 0 on a stream (=> RST_STREAM), zero-data padded DATA on an open stream (=> 2 WINDOW_UPDATE each), round-robin mix} x reader stall {never reads, stops after the SETTINGS exchange, reads 1 frame per 100 written} x transport {net.Pipe (no buffering), loopback TCP with 4 KB socket buffers}; plus GOAWAY-state cases {graceful shutdown through CloseNotifyCh with GracefulShutdownTimeout 30 s, connection error (RST_STREAM on an idle stream, 250 ms shutdown window)} x {PING, WINDOW_UPDATE 0} x {never reads, stops after SETTINGS} on net.Pipe and PING/never on TCP: limit-100 frames are queued first, then the connection is put into the GOAWAY state (observed on the serve goroutine), then the flood passes the limit; N = 3 x limit (limit=%d) client frames per case (thorough: also 10 x limit). The serve goroutine's queuedControlFrames and the real control queue length are sampled through the serve loop and read once more after the loop ended. Cases run one at a time so that the heap delta is attributable (recorded, not judged). Non-trivial = the counter reached the limit in that case; distinct = (pattern, stall, transport, N)", limit))
 	r.Assume(fmt.Sprintf("slack of %d above the limit: the check sits at the end of a serve-loop iteration and one iteration can queue several control frames", c37Slack))
 	if r.Replay != "" {
 		var cs c37Case
@@ -300,6 +350,15 @@ func c37(r *vkit.Run) {
 			cases = append(cases, c37Case{Pattern: p, Stall: "never", Transport: "pipe", N: 10 * limit})
 		}
 	}
+	// the same bound while the connection is already in the GOAWAY state
+	for _, ga := range []string{"graceful", "conn-error"} {
+		for _, p := range []string{"ping", "window-update-zero"} {
+			for _, st := range []string{"never", "after-preface"} {
+				cases = append(cases, c37Case{Pattern: p, Stall: st, Transport: "pipe", N: 3 * limit, GoAway: ga})
+			}
+		}
+		cases = append(cases, c37Case{Pattern: "ping", Stall: "never", Transport: "tcp", N: 3 * limit, GoAway: ga})
+	}
 	crossed := 0
 	for i := range cases {
 		cs := &cases[i]
@@ -316,7 +375,7 @@ func c37(r *vkit.Run) {
 		if r.WantSample() {
 			r.Sample(map[string]interface{}{"case": cs, "high_water_counter": hc, "high_water_queue": hq, "closed": closed, "client_frames_written": written})
 		}
-		r.Extra(fmt.Sprintf("high_water:%s,%s,%s,N=%d", cs.Pattern, cs.Stall, cs.Transport, cs.N), map[string]interface{}{"counter": hc, "queue": hq, "closed": closed, "written": written})
+		r.Extra(fmt.Sprintf("high_water:%s,%s,%s,N=%d,goaway=%s", cs.Pattern, cs.Stall, cs.Transport, cs.N, cs.GoAway), map[string]interface{}{"counter": hc, "queue": hq, "closed": closed, "written": written})
 	}
 	r.Count("cases_that_crossed_the_limit", int64(crossed))
 	r.Count("bfe_H2ConnExceedMaxQueuedControlFrames", bfe_http2.GetHttp2State().H2ConnExceedMaxQueuedControlFrames.Get())
